@@ -171,6 +171,11 @@ func flagSetOnlyFor(p *core.Program, f *core.Func, id *ast.Ident, names []string
 				continue
 			}
 			if exprStr(as.Rhs[i]) != "true" {
+				// flag := tok == A || tok == B  - the same thing in one expression
+				if onlyEqualsOf(as.Rhs[i], names) {
+					n++
+					continue
+				}
 				if exprStr(as.Rhs[i]) != "false" {
 					ok = false
 				}
@@ -197,4 +202,26 @@ func flagSetOnlyFor(p *core.Program, f *core.Func, id *ast.Ident, names []string
 		return true
 	})
 	return ok && n > 0
+}
+
+// onlyEqualsOf reports whether e is a disjunction of comparisons `x == N`
+// with every N one of names.
+func onlyEqualsOf(e ast.Expr, names []string) bool {
+	e = ast.Unparen(e)
+	be, ok := e.(*ast.BinaryExpr)
+	if !ok {
+		return false
+	}
+	if be.Op == token.LOR {
+		return onlyEqualsOf(be.X, names) && onlyEqualsOf(be.Y, names)
+	}
+	if be.Op != token.EQL {
+		return false
+	}
+	for _, nm := range names {
+		if exprStr(be.Y) == nm || exprStr(be.X) == nm {
+			return true
+		}
+	}
+	return false
 }
